@@ -84,9 +84,9 @@ class FaceVariable:
         else:
             raise TypeError('Unexpected number of arguments')
         self.domain = mesh
-        self._xvalue = _xvalue
-        self._yvalue = _yvalue
-        self._zvalue = _zvalue
+        self._xvalue = np.asarray(_xvalue, dtype=float)
+        self._yvalue = np.asarray(_yvalue, dtype=float)
+        self._zvalue = np.asarray(_zvalue, dtype=float)
 
 
     @property
